@@ -7,6 +7,8 @@ CONSTANTS
   FillPos = {3}
   FillW = {1}
   SetDtypes = {"f8"}
+  SliceArgs <- MCSliceArgs
+  MergeArgs = {2}
   MaxDepth = 4
   MaxVal = 64
 CHECK_DEADLOCK FALSE
